@@ -112,6 +112,11 @@ func genC15(t *rapid.T) *Case {
 	default:
 		c.Input = BStr(genSoup(t, m, nil))
 	}
+	if rapid.IntRange(0, 7).Draw(t, "prefix") == 0 {
+		// byte-order marks and other multi-byte sequences at the very start: whatever is done with
+		// them must not depend on how many bytes the first Read returns
+		c.Input = BStr(rapid.SampledFrom([]string{"\ufeff", "\ufeff\ufeff", "\xef\xbb", "\xff\xfe", "\xfe\xff", "\u2028", "\x00", "\xef\xbb\xbf<", "\r\n", "\ufeff \r"}).Draw(t, "bom")) + c.Input
+	}
 	n := rapid.IntRange(1, 6).Draw(t, "nsizes")
 	zeros := 0
 	for i := 0; i < n; i++ {
